@@ -297,7 +297,7 @@ structure St where
   recv : Option Recv := none
   /-- newest first -/
   trace : List Call := []
-deriving Repr
+deriving Repr, DecidableEq
 
 /-- the ReceiveBlob program read off the regenerated facts: the effect list (sub-store receives,
 recordMeta, index.Set in source order) and the store each `ReceiveNoHash` call targets
@@ -364,8 +364,25 @@ def St.record (psteps : List PStep) (s : St) (b : MetaBlob) : St :=
 
 /-! ## makePackedMetaBlob (meta.go:113) -/
 
+/-- merge of two ascending lists (fuel ≥ the two lengths together) -/
+def mergeRefs : Nat → List Bytes → List Bytes → List Bytes
+  | 0, xs, ys => xs ++ ys
+  | _ + 1, [], ys => ys
+  | _ + 1, xs, [] => xs
+  | fuel + 1, x :: xs, y :: ys =>
+    if ltB y x then y :: mergeRefs fuel (x :: xs) ys else x :: mergeRefs fuel xs (y :: ys)
+
+/-- top-down merge sort by Go's string order (fuel ≥ the length) -/
+def msortRefs : Nat → List Bytes → List Bytes
+  | 0, l => l
+  | fuel + 1, l =>
+    if l.length ≤ 1 then l
+    else
+      let h := l.length / 2
+      mergeRefs l.length (msortRefs fuel (l.take h)) (msortRefs fuel (l.drop h))
+
 /-- `sort.Sort(blob.ByRef(plains))` (refs of one hash type: text order) -/
-def sortRefs (l : List Bytes) : List Bytes := l.mergeSort (fun a b => !ltB b a)
+def sortRefs (l : List Bytes) : List Bytes := msortRefs l.length l
 
 /-- the lines `p/<index value>`; `none` = "failed to find the index entry" -/
 def packedLines (idx : SMap Bytes) : List Bytes → Option (List (Bytes × Bytes))
